@@ -336,6 +336,7 @@ def len_provenance(ctx):
     mut.const('scripts', 'decode_num', 'little', 'big', 'decode_num: big-endian', nth=0),
     mut.replace_expr('scripts', 'decode_num', '-num', 'num', 'decode_num: sign dropped'),
     mut.replace_stmt('scripts', 'encode_num', "return b''", "return b'\\x00'", 'encode_num: zero -> 00'),
+    mut.replace_expr('scripts', 'encode_num', 'encoded[-1] & 128', 'encoded[-1] >= 127', 'encode_num: sign-byte test >= 0x7f'),
 ])
 def scriptnum(ctx):
     """encode_num: 0 -> empty; little-endian magnitude of abs(num); sign in bit 7 of the last byte, extra byte (80 /
@@ -364,12 +365,22 @@ def scriptnum(ctx):
         ctx.require(m[3] == 'little', q, 'magnitude is serialised %s-endian' % m[3], fn)
     mag = mags[0]
     last = ('index', mag, -1)
-    topbit = ('binop', '&', last, 0x80)
-    if not (isinstance(t, tuple) and t[0] == 'cond' and t[1] == topbit):
-        if isinstance(t, tuple) and t[0] == 'cond' and isinstance(t[1], tuple) and t[1][0] == 'binop' and t[1][1] == '&' and t[1][2] == last:
-            ctx.violate(q, 'sign-bit test masks with %s instead of 0x80' % show(t[1][3]), fn)
-            return
-        ctx.undecided('encode_num: top-bit test not recognised: %s' % show(t))
+    if not (isinstance(t, tuple) and t[0] == 'cond'):
+        ctx.undecided('encode_num: result is not a choice on the top bit: %s' % show(t)[:120])
+    # the choice must be "bit 7 of the last magnitude byte is set": decide it exhaustively over the byte domain
+    wrong = []
+    for b in range(256):
+        try:
+            v = bool(intv.truth_eval(intv.specialise(t[1], {last: b}), {}))
+        except (intv.Unknown, TypeError, KeyError):
+            ctx.undecided('encode_num: top-bit test not a function of the last byte: %s' % show(t[1])[:120])
+        if v != (b >= 0x80):
+            wrong.append(b)
+    if wrong:
+        ctx.violate(q, 'the test deciding whether an extra sign byte is needed (%s) is wrong for last magnitude byte %s: consensus tests bit 7 (0x80)' % (
+            show(t[1]).replace(show(last), 'last'), ', '.join('%#x' % b for b in wrong[:4])), fn,
+            'numbers whose top magnitude byte hits those values get a non-minimal / wrong encoding')
+        return
     neg = ('cmp', '<', num, 0)
     occupied, free = t[2], t[3]
     exp_occ = ('cat', (mag, ('cond', neg, b'\x80', b'\x00')))
